@@ -51,6 +51,13 @@ MFirst(e) ==
   IF ok = {} THEN <<0, 0>>
   ELSE CHOOSE p \in ok : \A q \in ok : p[1] <= q[1]
 
+\* per-object attributes that are set (not at their default) on a version
+AttrsSet(v) == {a \in {"class", "ctype", "sys", "user", "redir", "tags", "multipart"} :
+                  CASE a = "class" -> v.class # "STANDARD" [] a = "ctype" -> v.ctype # None [] a = "sys" -> v.meta.sys # None
+                    [] a = "user" -> v.meta.user # None [] a = "redir" -> v.meta.redir # None [] a = "tags" -> v.tags # None
+                    [] a = "multipart" -> Len(v.parts) >= 2}
+FirstKey(St, b) == IF HasCurrent(St.objs[b]["k1"]) THEN "k1" ELSE "k2"
+LastKey(St, b) == IF HasCurrent(St.objs[b]["k2"]) THEN "k2" ELSE "k1"
 CurSet(St) == {<<b, k>> : b \in SrcBuckets(St), k \in Keys} \cap {o \in Buckets \X Keys : HasCurrent(St.objs[o[1]][o[2]])}
 MMigrate ==
   LET e == Trace[l]
@@ -76,7 +83,14 @@ MMigrate ==
                 empty |-> \E o \in cur : NonEmpty(Flat(V(o).parts)) = <<>>,
                 noncurrent |-> \E b \in Buckets, k \in Keys : \E i \in 1..Len(S.objs[b][k]) : ~S.objs[b][k][i].latest,
                 marker |-> \E b \in Buckets, k \in Keys : LatestIdx(S.objs[b][k]) # 0 /\ Current(S.objs[b][k]).dm,
-                twoorders |-> Len(OrderSeq) >= 2]
+                twoorders |-> Len(OrderSeq) >= 2,
+                \* attributes SET on an object and DEFAULT on the object migrated right after it
+                \* (listing order within a bucket; last object of one bucket -> first of another)
+                pairs_in |-> UNION {AttrsSet(V(<<b, "k1">>)) \ AttrsSet(V(<<b, "k2">>)) :
+                                      b \in {x \in SrcBuckets(S) : <<x, "k1">> \in cur /\ <<x, "k2">> \in cur}},
+                pairs_cross |-> UNION {AttrsSet(V(<<p[1], LastKey(S, p[1])>>)) \ AttrsSet(V(<<p[2], FirstKey(S, p[2])>>)) :
+                                         p \in {q \in SrcBuckets(S) \X SrcBuckets(S) :
+                                                   q[1] # q[2] /\ CurKeys(S, q[1]) # {} /\ CurKeys(S, q[2]) # {}}}]
   IN
   /\ e.call.op = "Migrate"
   /\ PrintT(ToJson([l |-> l, prog |-> prog, variant |-> e.variant, what |-> "migrate",
